@@ -274,7 +274,7 @@ def cases(draw: Any, tier: str) -> Dict[str, Any]:
     shadow = None
     if draw(st.integers(0, 2)) == 0 and len(sites) >= 2:
         a, bsite = draw(st.lists(st.sampled_from(P["body"]), min_size=2, max_size=2, unique_by=lambda x: x["site"]))
-        shadow = bsite["fn"]  # id of the first use of that function
+        shadow = P["fns"][bsite["fn"]].get("qual", bsite["fn"])  # id of the first use of that function
         a["tags"] = list(a.get("tags") or []) + [shadow]
     deps = gen.deps_of(P)
     desc = gen.descendants(deps)
